@@ -389,3 +389,20 @@ func ErrorTested(call ssa.Instruction) bool {
 	}
 	return false
 }
+
+// ErrorPropagated reports whether a non-nil error of `call` always ends the
+// function with a non-nil error: with the err==nil edges of the call's error
+// test removed, no return of a (possibly) nil error is reachable from the call.
+// nilEdges must be the edges on which the call's error is nil.
+func ErrorPropagated(fn *ssa.Function, call ssa.Instruction, nilEdges []Edge, isNilReturn func(ssa.Instruction) bool) (ssa.Instruction, bool) {
+	q := PathQuery{Fn: fn, CutEdge: func(e Edge) bool {
+		for _, x := range nilEdges {
+			if x == e {
+				return true
+			}
+		}
+		return false
+	}}
+	hit, reach := q.CanReach(call, isNilReturn)
+	return hit, !reach
+}
